@@ -82,8 +82,23 @@ EXTRA_BASES = [
 ]
 
 
+def template_bases():
+    """gradients that inherit from templates (translated templates, partial overrides, chains, templates after their users)"""
+    from mc.props import c06
+
+    out = []
+    for name, k in (
+        ("X:tpl-partial", ("linear", "numbers", "userSpaceOnUse", "translate", "pad", "partial", "none", "rect", "none")),
+        ("X:tpl-partial-after", ("radial", "numbers", "userSpaceOnUse", "scaletr", "pad", "partial-after", "none", "rect", "translate")),
+        ("X:tpl-chain3own", ("linear", "numbers", "objectBoundingBox", "matrix", "reflect", "chain3own", "none", "rect", "none")),
+        ("X:tpl-chain-rev", ("linear", "numbers", "userSpaceOnUse", "translate", "pad", "chain-rev", "none", "rect", "groupmatrix")),
+    ):
+        out.append((name, c06.document(*k)))
+    return out
+
+
 def base_docs(tier):
-    docs = [("K:" + "/".join(k), G.document(k)) for k in BASE_KINDS] + list(EXTRA_BASES)
+    docs = [("K:" + "/".join(k), G.document(k)) for k in BASE_KINDS] + list(EXTRA_BASES) + template_bases()
     files = sorted(glob.glob(os.environ.get("VERIF_REPO", "/repo") + "/tests/*.svg"))
     repo = []
     for f in files:
@@ -439,7 +454,7 @@ def run(run):
         f"E2 deviation-bounded: {len(BASE_KINDS)} generated base documents + repository test inputs x noise kinds "
         "{comment, PI, title, desc, metadata(with RDF), foreign-namespace element with children, id-less symbol with content (plain; with dangling / external use; with unparsable style, transform and numbers; with a nested svg overflow=scroll), whitespace, "
         "foreign-namespace attribute (ns declared on root / on the element; also with local names that equal SVG attributes: fill, opacity, transform, display, d, cx, width, id, style), attribute-less wrapper g around 1-3 siblings, XML declaration, PI+comment before root}: "
-        "3 hand-written bases whose authored ids look like generated ones (a / a_0 / a_1 gradients, nested-svg-viewport-0 clipPath); for comment / PI / whitespace noise additionally the caller-parsed-tree entry SVG(lxml tree) (comments must not survive); "
+        "4 template-gradient bases from C06 (partial override, template after its user, chains), 3 hand-written bases whose authored ids look like generated ones (a / a_0 / a_1 gradients, nested-svg-viewport-0 clipPath); for comment / PI / whitespace noise additionally the caller-parsed-tree entry SVG(lxml tree) (comments must not survive); "
         "all single insertions at every tree position (quick; a subset of bases additionally with drop_unsupported=True / allow_text=True), all pairs on the generated set (thorough). Oracle: canonical form (gradient ids relabelled "
         "by first use, defs sorted, gradient parameters rounded to 5 places) of convert(N(D)) equals that of convert(D); same exception type counts as equal. "
         "Non-trivial = distinct noisy documents whose conversion returned."
